@@ -12,11 +12,11 @@ import (
 )
 
 func init() {
-	register(&Rule{ID: "R-STALE", Min: 3, Run: ruleStale,
+	register(&Rule{ID: "R-STALE", Min: 2, Run: ruleStale,
 		Doc: "every float sample obtained from a storage iterator (At/PeekPrev) in execution/... reaches an emission (a success return, a promql.Point, an appended sample) only on the not-stale branch of a value.IsStaleNaN test of that very value"})
 	register(&Rule{ID: "R-LOOKBACK", Min: 2, Run: ruleLookback,
 		Doc: "in each engine entry that takes *promql.QueryOpts and calls execution.New, the lookback argument depends on opts.LookbackDelta and on the engine-wide delta"})
-	register(&Rule{ID: "R-SHARD", Min: 3, Run: ruleShard,
+	register(&Rule{ID: "R-SHARD", Min: 2, Run: ruleShard,
 		Doc: "each site constructing shard operators passes (i, n) with i the induction variable of a loop from 0, step 1, bounded by < the same n that is passed as shard count, n >= 1 established by a guard; the constant site passes (0, 1)"})
 	register(&Rule{ID: "R-TRUNCDIV", Min: 6, Run: ruleTruncDiv,
 		Doc: "no integer quotient is converted to float in the function kernels (truncation before conversion); conversions convert first and divide afterwards"})
